@@ -14,7 +14,24 @@
 (* error (too many arguments), set-up error (invalid signature or name),   *)
 (* abort with the function's error, or the values received and the text    *)
 (* printed for the result.  NativeMachine.tla runs this as the state       *)
-(* machine Parse -> Setup -> Call -> Convert -> Return/Abort.              *)
+(* machine Parse -> Setup -> Others -> Call -> Convert -> Return/Abort.    *)
+(*                                                                         *)
+(* String kinds (string and []byte alike) receive the STRING FORM of the   *)
+(* argument: a string as it is, an integral number as an integer, any      *)
+(* other number through the current CONVFMT (cf: one of ConvFmts; the      *)
+(* first is the default, which the program then does not assign).  Where   *)
+(* the spelling is not pinned down by the statement (nan, inf, -inf, and   *)
+(* integral numbers beyond 64 bits) the prediction is AwkText: "exactly    *)
+(* the text that the AWK conversion (v "") of this argument gives in the   *)
+(* same program" -- whatever it is, a string and a []byte parameter        *)
+(* receive the same.                                                       *)
+(*                                                                         *)
+(* Dispatch: Funcs is a table of names (here Table: the called function    *)
+(* "fn" and three others); the resolver numbers the Go functions by name   *)
+(* order over ALL names of the table, the interpreter builds its table the *)
+(* same way; an AWK `function` of the same name as an entry (shadow) takes *)
+(* precedence for calls of that name and must not change which Go function *)
+(* the calls of the OTHER names reach (DispatchAgrees).                    *)
 (***************************************************************************)
 EXTENDS Integers, Sequences, FiniteSets, TLC
 
@@ -40,22 +57,34 @@ StrKinds == {"string", "bytes"}
 \*  sn12      $1 (input "12 0")     numeric string 12
 \*  sn0       $2 (input "12 0")     numeric string 0: false, because it is a number
 \*  unset     u                     uninitialised variable
-\*  huge      1e30                  beyond every integer kind: only "no panic" is required
-\*  nan       log(-1)               not a number: only "no panic" is required
-PlainValues == {"three", "negthree", "twohalf", "n300", "zero", "abc", "s12", "s0", "empty", "sn12", "sn0", "unset"}
-WildValues  == {"huge", "nan"}
+\*  big       1000000               an integer that %.6g would spell 1e+06: integers convert as integers
+\*  huge      1e30                  beyond every integer kind: only "no panic" is required of numeric kinds
+\*  nan       log(-1)               not a number: only "no panic" is required of numeric kinds
+\*  inf       -log(0)               +infinity (same)
+\*  neginf    log(0)                -infinity (same)
+PlainValues == {"three", "negthree", "twohalf", "n300", "zero", "abc", "s12", "s0", "empty", "sn12", "sn0", "unset", "big"}
+WildValues  == {"huge", "nan", "inf", "neginf"}
 Values      == PlainValues \cup WildValues
+
+\* CONVFMT settings: the first is the default (the program does not assign CONVFMT)
+DefaultCf == "%.6g"
+ConvFmts  == {"%.6g", "%.2f", "%.3e"}
 
 NumHalves(v) ==       \* twice the numeric value (leading numeric prefix for strings)
   CASE v = "three" -> 6 [] v = "negthree" -> 0 - 6 [] v = "twohalf" -> 5 [] v = "n300" -> 600 [] v = "zero" -> 0
     [] v = "abc" -> 0 [] v = "s12" -> 24 [] v = "s0" -> 0 [] v = "empty" -> 0 [] v = "sn12" -> 24 [] v = "sn0" -> 0
-    [] v = "unset" -> 0
+    [] v = "unset" -> 0 [] v = "big" -> 2000000
 Truth(v) ==           \* numbers and numeric strings: non-zero; strings: non-empty; unset: false
-  v \in {"three", "negthree", "twohalf", "n300", "abc", "s12", "s0", "sn12"}
-StrForm(v) ==
+  v \in {"three", "negthree", "twohalf", "n300", "abc", "s12", "s0", "sn12", "big"}
+StrForm(v) ==           \* under the default CONVFMT
   CASE v = "three" -> "3" [] v = "negthree" -> "-3" [] v = "twohalf" -> "2.5" [] v = "n300" -> "300" [] v = "zero" -> "0"
     [] v = "abc" -> "abc" [] v = "s12" -> "12" [] v = "s0" -> "0" [] v = "empty" -> "" [] v = "sn12" -> "12" [] v = "sn0" -> "0"
-    [] v = "unset" -> ""
+    [] v = "unset" -> "" [] v = "big" -> "1000000"
+
+\* 2.5 (the only non-integral magnitude of the model) under a CONVFMT setting
+TwoHalfText(cf) == CASE cf = "%.6g" -> "2.5" [] cf = "%.2f" -> "2.50" [] cf = "%.3e" -> "2.500e+00"
+\* the string form under CONVFMT cf: only a non-integral number depends on it
+StrFormCf(v, cf) == IF v = "twohalf" THEN TwoHalfText(cf) ELSE StrForm(v)
 
 \* truncation toward zero of a number given in halves
 TruncHalves(h) == IF h >= 0 THEN h \div 2 ELSE 0 - ((0 - h) \div 2)
@@ -71,15 +100,20 @@ InRange(k, n) ==
 
 Unspecified == [ok |-> FALSE, val |-> [k |-> "none"]]
 Known(g)     == [ok |-> TRUE, val |-> g]
+\* "the text the AWK conversion (v "") of this argument gives in the same program"
+AwkText      == [ok |-> TRUE, val |-> [k |-> "awk"]]
+\* the same as a prediction of printed text (there val is a string): "the line  print (arg1 "")  gives"
+AwkTextPrinted == [ok |-> TRUE, awk |-> TRUE, val |-> ""]
 
-\* the documented conversion of an AWK argument to a Go parameter of kind k
-ToGo(k, v) ==
-  IF v \in WildValues THEN Unspecified
+\* the documented conversion of an AWK argument to a Go parameter of kind k, CONVFMT being cf
+ToGoCf(k, v, cf) ==
+  IF k \in StrKinds THEN (IF v \in WildValues THEN AwkText ELSE Known([k |-> "s", s |-> StrFormCf(v, cf)]))
+  ELSE IF v \in WildValues THEN Unspecified
   ELSE CASE k = "bool"       -> Known([k |-> "b", b |-> Truth(v)])
          [] k \in IntKinds   -> LET n == TruncHalves(NumHalves(v))
                                 IN IF InRange(k, n) THEN Known([k |-> "i", n |-> n]) ELSE Unspecified
          [] k \in FloatKinds -> Known([k |-> "f", h |-> NumHalves(v)])
-         [] k \in StrKinds   -> Known([k |-> "s", s |-> StrForm(v)])
+ToGo(k, v) == ToGoCf(k, v, DefaultCf)
 
 ZeroOf(k) ==
   CASE k = "bool" -> [k |-> "b", b |-> FALSE]
@@ -96,13 +130,16 @@ FromGo(k, g) ==
     [] k \in StrKinds   -> [t |-> "str", s |-> g.s]
 AwkNull == [t |-> "str", s |-> ""]
 
-\* how print shows an AWK value (integers as integers, 2.5 as 2.5)
-AwkPrint(a) ==
+\* how  print "R:" r  shows an AWK value (the concatenation converts a number to a string: integers as
+\* integers, 2.5 through CONVFMT; 2.5 is the only non-integral magnitude)
+AwkPrintCf(a, cf) ==
   IF a.t = "str" THEN a.s
   ELSE LET neg == a.h < 0
            m   == IF neg THEN 0 - a.h ELSE a.h
-           txt == IF m % 2 = 0 THEN ToString(m \div 2) ELSE ToString(m \div 2) \o ".5"
+           txt == IF m % 2 = 0 THEN ToString(m \div 2)
+                  ELSE IF m = 5 THEN TwoHalfText(cf) ELSE ToString(m \div 2) \o ".5"
        IN IF neg THEN "-" \o txt ELSE txt
+AwkPrint(a) == AwkPrintCf(a, DefaultCf)
 
 \* the constant a recording function returns when it does not echo
 RetConst(k) ==
@@ -131,24 +168,62 @@ ParamKind(sig, j) ==
 
 \* what the Go function receives: the converted arguments, then zero values for the missing
 \* non-variadic parameters (a variadic tail without arguments is empty)
-Received(sig, args) ==
+ReceivedCf(sig, args, cf) ==
   LET fixed == IF sig.variadic THEN Len(sig.params) - 1 ELSE Len(sig.params)
       n     == IF Len(args) > fixed THEN Len(args) ELSE fixed
-  IN [j \in 1..n |-> IF j <= Len(args) THEN ToGo(ParamKind(sig, j), args[j]) ELSE Known(ZeroOf(sig.params[j]))]
+  IN [j \in 1..n |-> IF j <= Len(args) THEN ToGoCf(ParamKind(sig, j), args[j], cf) ELSE Known(ZeroOf(sig.params[j]))]
+Received(sig, args) == ReceivedCf(sig, args, DefaultCf)
 
-\* the outcome of   { r = name(args); print "R:" r }   under Funcs = {name: function of signature sig}
-\* called = FALSE: the program does not mention the function (keyword-like names cannot be called)
-Outcome(sig, args, called) ==
+\* ---- dispatch ----
+\* The Funcs table of the model, in name order, and the call the program makes of each of the others BEFORE it
+\* calls fn:  aa(7)  mm("q")  zz(2, 3).  As Go functions: aa(x int) int = x + 100, mm(s string) string = s "!",
+\* zz(a, b int) int = 10a + b; as AWK functions (when shadowed): return "awk:" first argument.
+Table   == <<"aa", "fn", "mm", "zz">>
+Others  == <<"aa", "mm", "zz">>
+Shadows == {"none", "aa", "mm", "zz"}
+GoResultOf(name)  == CASE name = "aa" -> "107" [] name = "mm" -> "q!" [] name = "zz" -> "23"
+AwkResultOf(name) == CASE name = "aa" -> "awk:7" [] name = "mm" -> "awk:q" [] name = "zz" -> "awk:2"
+PosIn(seq, e) == CHOOSE k \in 1..Len(seq) : seq[k] = e
+\* the index the resolver gives a Go function: its place in name order among ALL names of Funcs.  renumber = TRUE is
+\* the slip (numbering only the names that no AWK function shadows) that DispatchAgrees excludes.
+ResolverIndex(renumber, shadow, name) ==
+  IF renumber THEN PosIn(SelectSeq(Table, LAMBDA nm : nm # shadow), name) ELSE PosIn(Table, name)
+\* the interpreter's table: every name of Funcs, in name order
+InterpTable == Table
+\* which function a call of `name` reaches
+Dispatch(renumber, shadow, name) ==
+  IF name = shadow THEN "awk:" \o name ELSE InterpTable[ResolverIndex(renumber, shadow, name)]
+DispatchAgrees(renumber) ==
+  \A sh \in Shadows : \A k \in 1..Len(Table) : Table[k] # sh => Dispatch(renumber, sh, Table[k]) = Table[k]
+\* the Go functions that run, in order, up to and including fn; and the lines printed for the calls of the others
+RanBefore(shadow) == SelectSeq(Others, LAMBDA nm : nm # shadow)
+OtherLines(shadow) == [k \in 1..Len(Others) |-> IF Others[k] = shadow THEN AwkResultOf(Others[k]) ELSE GoResultOf(Others[k])]
+
+\* the outcome of   { r = name(args); print "R:" r }   under Funcs = {name: function of signature sig, ...},
+\* CONVFMT = cf.  called = FALSE: the program does not mention the function (keyword-like names cannot be called)
+OutcomeConv(sig, args, called, cf) ==
   IF called /\ ~IsVariadic(sig) /\ Len(args) > NumParams(sig) THEN [o |-> "parse-error"]
   ELSE IF ~ValidSig(sig) THEN [o |-> "setup-error"]
   ELSE IF ~called THEN [o |-> "not-called"]
-  ELSE LET recv == Received(sig, args)
+  ELSE LET recv == ReceivedCf(sig, args, cf)
        IN IF sig.err = "err" THEN [o |-> "abort", recv |-> recv]
           ELSE [o |-> "ok", recv |-> recv,
-                printed |-> CASE sig.res = "none"  -> Known(AwkPrint(AwkNull))
-                              [] sig.res = "const" -> Known(AwkPrint(FromGo(sig.rk, RetConst(sig.rk))))
-                              [] sig.res = "echo"  -> IF recv[1].ok THEN Known(AwkPrint(FromGo(sig.rk, recv[1].val)))
-                                                      ELSE Unspecified]
+                printed |-> CASE sig.res = "none"  -> Known(AwkPrintCf(AwkNull, cf))
+                              [] sig.res = "const" -> Known(AwkPrintCf(FromGo(sig.rk, RetConst(sig.rk)), cf))
+                              [] sig.res = "echo"  -> IF ~recv[1].ok THEN Unspecified
+                                                      ELSE IF recv[1].val.k = "awk" THEN AwkTextPrinted   \* the echoed text, printed
+                                                      ELSE Known(AwkPrintCf(FromGo(sig.rk, recv[1].val), cf))]
+\* the outcome of   { print "D:" aa(7); print "D:" mm("q"); print "D:" zz(2, 3); r = fn(args); print "R:" r }
+\* under Funcs = Table and an AWK function named `shadow`: as above, and
+\* ran = the Go functions that ran, in order; dlines = the text printed after "D:" for the three other calls
+OutcomeFull(sig, args, called, shadow, cf) ==
+  LET oc  == OutcomeConv(sig, args, called, cf)
+      ran == Append(RanBefore(shadow), Dispatch(FALSE, shadow, sig.name))
+  IN CASE oc.o = "abort" -> [o |-> "abort", recv |-> oc.recv, ran |-> ran, dlines |-> OtherLines(shadow)]
+       [] oc.o = "ok"    -> [o |-> "ok", recv |-> oc.recv, ran |-> ran, dlines |-> OtherLines(shadow), printed |-> oc.printed]
+       [] OTHER          -> oc
+\* a table with only the called function matters to the conversion tables: no shadow, default CONVFMT
+Outcome(sig, args, called) == OutcomeConv(sig, args, called, DefaultCf)
 
 \* an "echo" function returns its first parameter: it needs one, of the result's kind
 WellFormedSig(sig) ==
